@@ -15,7 +15,7 @@ func init() {
 	Registry["C14"] = func(tier string) int {
 		return engineAWith("C14", tier, []scen.Spec{scen.IDs(), scen.BridgeSpec()},
 			func() []explore.Monitor { return []explore.Monitor{&mon.C14{}} },
-			budget(tier, 80*time.Second, 12*time.Minute),
+			budget(tier, 150*time.Second, 12*time.Minute),
 			func(o *runner.Outcome) { pure.C14Formats(tier, o) },
 			"format part (Engine B): bounded-exhaustive enumeration of formatted ids and of arbitrary short strings against a hand-written recogniser of the documented grammar; details under coverage.formats")
 	}
